@@ -433,6 +433,21 @@ theorem vertex_id_not_row_accepted_counterexample :
   revert this
   decide
 
+/-- the scanned vertex count is the text-line count minus one, which need not be the number of records
+the csv reader yields: a vertex file with lone-CR line endings, or gzip data in a file not named `*.gz`
+(the scan decides by extension, the reader by magic bytes) is seen as ONE line; the scanned count is 0,
+both vertex rows are read, and every adjacency entry is silently dropped -/
+theorem scanned_count_below_rows_counterexample :
+    ∃ g, graphFromFiles ⟨true, 3, [Row.ok (⟨0, 0, 1, 7⟩ : Edge Nat), Row.ok ⟨1, 1, 0, 9⟩]⟩
+        ⟨true, 1, (wVertices 2).map Row.ok⟩ none none = .ok g ∧
+      g.nVertices = 2 ∧ g.nEdges = 2 ∧ g.adj.length = 0 ∧ g.outEdges 0 = [] ∧ g.inEdges 0 = [] ∧
+      ¬ Describes g [⟨0, 0, 1, 7⟩, ⟨1, 1, 0, 9⟩] (wVertices 2) := by
+  refine ⟨_, rfl, by decide, by decide, by decide, by decide, by decide, ?_⟩
+  intro h
+  have := (h.out 0 0).2 ⟨⟨0, 0, 1, 7⟩, by simp, rfl, rfl⟩
+  revert this
+  decide
+
 /-! ### non-vacuity -/
 
 /-- a star: `n` edges leave vertex 0 (ids `0 … n-1`), for any `n` — degrees are unbounded -/
